@@ -1,6 +1,7 @@
 pub mod cpref;
 pub mod engine;
 pub mod findings;
+pub mod model;
 pub mod pestq;
 pub mod props;
 pub mod refeval;
